@@ -375,7 +375,14 @@ def rvalue(env, rv):
             return Ptr(env, rv["place"])
         return v
     if k == "cast":
-        return operand(env, rv["op"])
+        v = operand(env, rv["op"])
+        if "dyn std::fmt::Display" in str(rv.get("ty", "")) and str(rv.get("from_ty", "")).replace("&", "").replace("mut ", "").strip() == "char":
+            # a character handed on as `&dyn Display`: all that can be done with it is to print it, and it prints as the one-character
+            # text (characters and integers are the same abstract value, the static type is what tells them apart)
+            dv = deref(v)
+            if isinstance(dv, int) and not isinstance(dv, bool) and 0 <= dv < 0x110000:
+                return chr(dv)
+        return v
     if k == "binop":
         return binop(rv["op"], deref(operand(env, rv["l"])), deref(operand(env, rv["r"])))
     if k == "unop":
